@@ -30,6 +30,32 @@ def main(argv):
         from harness.driver import replay_main
 
         return replay_main(argv[1])
+    if cmd == "seed":
+        # ./run seed <ID> <run-seed> [index]: execute the program generated from one run seed
+        runctx.prepare_parent()
+        import importlib, json
+        from harness.driver import KnownFindings, Pool, minimise, VERIF
+
+        cid = argv[1].upper()
+        mod = importlib.import_module(f"checks.{cid.lower()}")
+        kf = KnownFindings()
+        prog = mod.generate(int(argv[2]), "quick", int(argv[3]) if len(argv) > 3 else 0, kf)
+        prog.setdefault("check", cid)
+        prog.setdefault("seed", int(argv[2]))
+        pool = Pool(mod, 8, wall=mod.CONFIG.get("wall", 60) * 2)
+        res = pool.run_one(prog, {})
+        vs = [v for v in res.get("violations", []) if v["property"] == cid and kf.match(v) is None]
+        print("harness_error:", res.get("harness_error"), "timeout:", res.get("harness_timeout"), "violations:", [(v["rule"]) for v in vs])
+        if vs:
+            sig = (vs[0]["property"], vs[0]["rule"])
+            small = minimise(pool, mod, prog, sig, kf, budget=150)
+            small["expect"] = {"property": sig[0], "rule": sig[1]}
+            path = os.path.join(VERIF, "replays", f"{cid}-{argv[2]}-{sig[1]}.json")
+            os.makedirs(os.path.dirname(path), exist_ok=True)
+            json.dump(small, open(path, "w"), indent=1, default=str)
+            print("replay written:", path)
+            return 1
+        return 0
     if cmd == "selftest":
         runctx.prepare_parent()
         from harness.selftest import selftest_main
